@@ -190,6 +190,23 @@ func c20Run(w *W, removals bool) {
 				probe = true
 			}
 		}
+		for i, r := range its {
+			// "without remaining blocked while an unseen item is present",
+			// for "a Remove-to-empty landing between the iterator's look at the
+			// tail and its decision to wait": nothing else can run now, so a
+			// parked iterator with a never-removed, never-yielded item in the
+			// container stays parked until somebody adds something else
+			if r.blocking && r.state == 1 {
+				if u := unseen(r); len(u) > 0 {
+					site := simrt.SiteOf(r.task)
+					w.Violate("blocked-with-unseen-item", fmt.Sprintf("blocked-with-unseen-item:%s:after-removals@%s", v.name, site),
+						"iterator %d is blocked at %s having yielded %v; %v were added and never removed (removed: %v) and nothing else can run", i, site, r.yielded, u, removed)
+				}
+			}
+		}
+		if len(w.Out.Violations) > 0 {
+			return
+		}
 		if probe {
 			w.Probe("iterator-parked-with-unseen-item-after-removals")
 			before := make([][]int, len(its))
